@@ -77,6 +77,8 @@ var registry = map[string]propDef{
 	"C19w": {"other", props.C19wait},
 	"C19k": {"other", props.Wakers("p2p")},
 	"C19c": {"other", props.C19closed},
+	"C19t": {"other", props.Deadlines("p2p")},
+	"C10u": {"other", props.Deadlines("gmw", "p2p")},
 	"C10y": {"other", props.Wakers("gmw")},
 	"C19o": {"other", props.C19shift},
 	"C10z": {"other", props.C19shift},
@@ -131,6 +133,7 @@ var registry = map[string]propDef{
 	"C07i": {"other", props.C07index},
 	"C07c": {"other", props.ConstLoops},
 	"C09c": {"other", props.ConstLoops},
+	"C09n": {"other", props.C09narrow},
 	"C07d": {"other", props.C07dividers},
 	"C09d": {"other", props.C07dividers},
 	"C07e": {"other", props.BuilderErrors},
@@ -164,6 +167,7 @@ var registry = map[string]propDef{
 	"C13f": {"other", props.C13fresh},
 	"C13c": {"other", props.C13clear},
 	"C13e": {"other", props.C13ext},
+	"C13a": {"other", props.C13array},
 	"C17":  {"other", props.C17},
 	"C17p": {"other", props.C17pool},
 	"C02o": {"other", props.C17pool},
